@@ -1,7 +1,7 @@
 (* C19 — The bundled version-1 library is self-consistent.  Only statements;
    proofs in Proofs/V1.v (decoder) and Proofs/V1Codec.v (the codec meta-theorem of
    Proofs/Codec.v, instantiated on the v1compat schemas generated from the code). *)
-From JWT Require Import Base.Codec Model.V1 Gen.Schema Proofs.V1 Proofs.Codec Proofs.V1Codec.
+From JWT Require Import Base.Codec Base.B64 Model.Claims Model.V1 Model.Pipeline Gen.Schema Proofs.V1 Proofs.Codec Proofs.V1Codec Proofs.PipelineV1 Proofs.PipelineV1Self.
 Open Scope string_scope.
 
 (* the v1 role matrix (incl. the retired cluster and server kinds) *)
@@ -78,3 +78,29 @@ Theorem C19_roundtrip : forall t v j,
   exists v', dec t j (zero_val t) = Some v' /\ canon v' = canon v.
 Proof. exact v1_roundtrip. Qed.
 Print Assumptions C19_roundtrip.
+
+(* AT TOKEN LEVEL: the text the version-1 encoder writes for claims of any of the seven v1 kinds (v1 header,
+   the payload its claims type marshals, signature over the payload segment, concrete base64url) is accepted by the
+   version-1 decoder whose JSON-level steps are the codec on the v1compat schemas generated from the code; the
+   issuer reported is the payload's, and the claims read back are the encoded ones (up to nil = empty).
+   [sch1v k] is the schema of the kind's claims type.  Abstract: the JSON text layer, Ed25519, the key-role test. *)
+Theorem C19_encoder_output_accepted : forall (jparse : string -> option json) (jprint : json -> string)
+    (sign : string -> string) (verify : string -> string -> string -> bool) (role_of : string -> role)
+    (k : v1kind) (c1 : val) (j : json) (issuer : string),
+  (forall x, jparse (jprint x) = Some x) ->
+  has_type (sch1v k) c1 = true ->
+  getp (sch1v k) ["iss"] c1 = Some (VStr issuer) -> issuer <> "" ->
+  enc (sch1v k) c1 = Some j ->
+  (forall text, verify issuer text (sign text) = true) ->
+  v1_role_ok (v1_expected_prefixes k) (role_of issuer) = true ->
+  exists a d,
+    v1_decode b64dec (p_parse_header jparse) (v1p_unmarshal_ok jparse) (v1p_issuer_of jparse) verify role_of
+              k (v1_token_of jprint sign j) = Some a /\
+    v1a_iss a = issuer /\
+    dec (sch1v k) j (zero_val (sch1v k)) = Some d /\ canon d = canon c1.
+Proof.
+  intros jparse jprint sign verify role_of k c1 j issuer Hjp.
+  exact (v1_self_accepts jparse jprint Hjp sign verify role_of k c1 j issuer).
+Qed.
+Print Assumptions C19_encoder_output_accepted.
+Print Assumptions C19_v2_alg_refused.
